@@ -8,4 +8,5 @@ from .data.profiles.chemistry import ConstantGas
 from .data.profiles.chemistry import TwoLayerGas
 from .data.profiles.chemistry import PowerGas
 from .data.profiles.chemistry.gas.arraygas import ArrayGas
+from .data.profiles.chemistry.gas.twopointgas import TwoPointGas
 from .data.profiles.chemistry import AutoChemistry
